@@ -1,5 +1,9 @@
 import XProofs.Properties.C05
+#print axioms Properties.C05.C05_valid_table_covers_universe
 #print axioms Properties.C05.C05_deps_exact
+#print axioms Properties.C05.C05_deps_exact_rows
 #print axioms Properties.C05.C05_valid_covers
 #print axioms Properties.C05.C05_value_depends_only_on_reported
 #print axioms Properties.C05.C05_changed_location_reported
+#print axioms Properties.C05.C05_value_depends_only_on_reported_rows
+#print axioms Properties.C05.C05_changed_location_reported_rows
